@@ -214,7 +214,7 @@ pub fn catalogue() -> Vec<(String, Vec<MLayer>)> {
 pub fn run(ctx: Arc<Ctx>) {
 	ctx.rule(
 		"catalogue: C10's 12 tiles + tiles around layer 'a' with an id key (ids as string / int64 / sint64 / uint64 / float / double with integral and fractional values, float vs double, unknown geometry type, duplicate keys/values, unused entries, untouched second layer) + all key tables of length <= 3 over {id,k}; \
-		 x 5 data tables (string ids, numeric ids as integers and decimals) x 2^3 options (replace, remove_non_matching, include_id) x layer name {a, absent} x source compression; reference join on the independently decoded form; plus decode -> encode of every catalogue tile through the repository's VectorTile. \
+		 x 5 data tables (string ids, numeric ids as integers and decimals) x 2^3 options (replace, remove_non_matching, include_id) x layer name {a, absent} x source compression; reference join on the independently decoded form; plus decode -> encode of every catalogue tile through the repository's VectorTile; plus the bounded-exhaustive small-layer family (5 key tables x 4 value tables x feature lists with every tag list of <= 2 pairs; all 409) joined on key k under all 16 (options, layer name) configurations. \
 		 non-trivial = (tile, table, options) where the reference join changes at least one feature",
 	);
 	let cat = catalogue();
@@ -336,11 +336,94 @@ pub fn run(ctx: Arc<Ctx>) {
 			ctxr.nontrivial(fnv_str(&format!("{ti}{tb}{o}{lname}")));
 		}
 	});
+	systematic(&ctx, &work.0);
 	ctx.sample(json!({"catalogue_size": cat.len(), "example_tile": cat[12].0, "tables": tabs.iter().map(|t| t.name).collect::<Vec<_>>()}));
 	ctx.outcome_n("pipeline configurations", jobs.len() as u64);
 	ctx.outcome_n("decode -> encode round trips", cat.len() as u64);
 	ctx.exhaustive(true);
 	drop(work);
+}
+
+/// The bounded-exhaustive small layers of `mvt::small_layers` (every key/value table layout, every tag
+/// list of <= 2 pairs) as layer "a" next to a constant layer "b", joined on key `k` with a table that knows
+/// the ids "v" and 5, under all 8 option combinations and both layer names; one pipeline per configuration,
+/// the layers spread over the coordinates of level 10.
+fn systematic(ctx: &Arc<Ctx>, work: &std::path::Path) {
+	let all = mvt::small_layers("a");
+	let pick: Vec<usize> = (0..all.len()).collect();
+	let other = layer("b", &["k"], vec![s("v")], vec![feat(Some(77), &[0, 0], 1, point(9, 9))]);
+	let enc: Vec<Vec<u8>> = pick.iter().map(|i| mvt::encode_tile(&[all[*i].clone(), other.clone()])).collect();
+	let dec: Vec<Vec<DLayer>> = enc.iter().map(|b| mvt::decode_tile(b).expect("small layer decodes")).collect();
+	let table = Table { name: "ids v and 5, column n (collides with a key) and column extra", header: vec!["data_id", "n", "extra"], rows: vec![vec!["v", "from table", "1"], vec!["5", "five", "2.5"]] };
+	let mut csv = table.header.join(",");
+	csv.push('\n');
+	for r in &table.rows {
+		csv.push_str(&r.join(","));
+		csv.push('\n');
+	}
+	std::fs::write(work.join("sys.csv"), csv).unwrap();
+	let mut tiles = TileMap::new();
+	for (i, e) in enc.iter().enumerate() {
+		tiles.insert((10, (i % 64) as u32, (i / 64) as u32), e.clone());
+	}
+	let rows = (enc.len() as u32).div_ceil(64);
+	let cfgs: Vec<(u8, &str)> = (0..8u8).flat_map(|o| [(o, "a"), (o, "absent")]).collect();
+	let (ctxr, cr, dr, pr, tr, tabr): (&Ctx, _, _, _, _, _) = (ctx, &cfgs, &dec, &pick, &tiles, &table);
+	par_for(cfgs.len(), |ci| {
+		let (o, lname) = cr[ci];
+		let opts = Opts { replace: o & 1 != 0, remove: o & 2 != 0, include_id: o & 4 != 0 };
+		let rt = crate::memsource::runtime(2);
+		let src = MemSource::new("s", tr.clone(), TileFormat::PBF, TileCompression::Uncompressed).with_fast_stream();
+		let vpl = format!(
+			"from_container filename=\"mem:0\" | vectortiles_update_properties data_source_path=\"sys.csv\" layer_name=\"{lname}\" id_field_tiles=\"k\" id_field_data=\"data_id\" replace_properties={} remove_non_matching={} include_id={}",
+			opts.replace, opts.remove, opts.include_id
+		);
+		let fac = pipeline::factory(vec![src], work);
+		let op = match pipeline::build_op(&rt, &fac, &vpl) {
+			Ok(o) => o,
+			Err(e) => return ctxr.violation(&format!("update pipeline cannot be built: {}", super::c01::norm_msg(&e)), &format!("{vpl}: {e}"), json!({"systematic": true, "vpl": vpl})),
+		};
+		let declared = op.get_parameters().tile_compression;
+		let src = AnySrc::Op(op);
+		let items = match catch(|| rt.block_on(src.stream(TileBBox::new(10, 0, 0, 63, rows.max(1) - 1).unwrap()))) {
+			Ok(v) => v,
+			Err(p) => return ctxr.violation(&format!("update stream panics at {}", panic_site(&p)), &p, json!({"systematic": true, "vpl": vpl})),
+		};
+		if items.len() != dr.len() {
+			ctxr.violation("update stream delivers another number of tiles than the source holds", &format!("{vpl}: {} of {}", items.len(), dr.len()), json!({"systematic": true, "vpl": vpl}));
+		}
+		for (key, bytes) in items {
+			let i = (key.2 * 64 + key.1) as usize;
+			if i >= dr.len() {
+				continue;
+			}
+			ctxr.eval();
+			ctxr.transition(1);
+			let case = json!({"systematic": true, "small_layer": pr[i], "options": {"replace": opts.replace, "remove_non_matching": opts.remove, "include_id": opts.include_id}, "layer_name": lname});
+			let label = format!("small layer #{} {opts:?} layer_name={lname}", pr[i]);
+			let want = reference(&dr[i], lname, "k", tabr, &opts);
+			let plain = match codec::decode_with(ct::comp_id(declared), &bytes) {
+				Ok(p) => p,
+				Err(e) => {
+					ctxr.violation("output tile is not in the declared compression", &format!("{label}: {e}"), case);
+					continue;
+				}
+			};
+			match mvt::decode_tile(&plain) {
+				Err(e) => ctxr.violation("output is not a decodable vector tile in the declared compression", &format!("{label}: {e}"), case),
+				Ok(got) => {
+					if let Some((clause, why)) = compare(&got, &want, lname) {
+						ctxr.violation(&clause, &format!("{label}: {why}"), case);
+					}
+				}
+			}
+			if want != dr[i] {
+				ctxr.nontrivial(fnv_str(&format!("sys{i}{o}{lname}")));
+			}
+		}
+		ctxr.trace(1);
+	});
+	ctx.extra("systematic_small_layers", json!({"family_size": all.len(), "used": pick.len(), "configurations": cfgs.len()}));
 }
 
 pub fn replay(_ctx: Arc<Ctx>, case: &Value) {
